@@ -1,6 +1,8 @@
 """C03 - thermal expansion conserves mass per unit height and scales dimensions.
 
-Theorems: lean/ArmiVerif/Props/C03.lean (any expansion curve, any shape class, any temperature history) and
+Theorems: lean/ArmiVerif/Props/C03.lean (any expansion curve, any shape class, any temperature history; the component
+and the block of linked components as state machines WITH their caches: any history of queries, temperature changes,
+material swaps and dimension edits) and
 lean/ArmiVerif/Props/C03Gen.lean (the regenerated THERMAL_EXPANSION_DIMS table equals the sets the
 homogeneity lemmas were proved for).
 Tie: every 2-D shape class x every material class of armi.materials (solids with a correlation: expansion;
@@ -40,6 +42,11 @@ ASSUMPTIONS = [
     "math.pi / math.sqrt(3.0) enter the area functions as exact rational values of the doubles; math.sqrt in "
     "Helix.getComponentArea is modelled by a 1e-40 rational square root",
     "Gen/Shapes.lean is produced by harness/c03.py from the component classes' THERMAL_EXPANSION_DIMS (data only)",
+    "state machines with caches (Thermal.run / Thermal.brun): the parent block's height and (block machine) its max area are "
+    "constants of a history - the harness never touches the pitch-defining duct and checks getMaxArea() after every call; "
+    "applyMaterialMassFracsToNumberDensities after a material swap enters the model as 'number densities replaced by these "
+    "values' (its result is C02/C19 territory); linked dimensions are not part of the single-component machine (they are "
+    "in the block machine)",
 ]
 TOL = 1e-9
 PI = math.pi
@@ -1218,6 +1225,722 @@ def run_derived(ctx, mats, solids):
     ctx.count("model requests (derived shape)", len(req))
 
 
+# --------------------------------------------------------------------------- histories with caches and material swaps
+# One component (any 2-D shape class, or the area-defined UnshapedComponent), bare or inside a HexBlock with a height,
+# driven through a seeded history of PUBLIC calls: queries (which warm p.volume / block caches / anything the code
+# chooses to memoise), setTemperature, setProperties (material replaced, within and across the expansion classes
+# solid / Fluid / Custom) and hot/cold setDimension.  The same history goes to the model's state machine with caches
+# (Model/Thermal.lean `run`), every returned value is compared, and after every call the property's clauses are
+# evaluated for the CURRENT material through every read path (area, getVolume()/height, getMass()/height).
+HIST_FLUIDS = ["Sodium", "LeadBismuth", "Air", "Custom", "Void", "Cs", "Potassium"]
+HIST_MODES = ["bare", "block", "block-warm", "block-derived"]
+
+
+def _mass_weights(names):
+    from armi.utils import densityTools
+
+    return [float(densityTools.calculateMassDensity({n: 1.0})) for n in names]
+
+
+def hist_spec(seed, mats, solids, shape=None, mode=None, swaps=None):
+    """-> replayable description of one history (materials, geometry, ops)."""
+    import random
+
+    rng = random.Random(seed)
+    shape = shape or rng.choice(list(SHAPE_DIMS) + ["UnshapedComponent"] * 3)
+    mode = mode or rng.choice(HIST_MODES)
+    swaps = rng.random() < 0.6 if swaps is None else swaps
+    for _ in range(50):
+        nm = rng.randint(2, 3) if swaps else 1
+        names = [rng.choice(solids)]
+        while len(names) < nm:
+            r = rng.random()
+            names.append(rng.choice(solids) if r < 0.45 else rng.choice(HIST_FLUIDS))
+        if swaps and rng.random() < 0.5:
+            rng.shuffle(names)          # also start as a fluid/custom and become a solid
+        sol = [n for n in names if n in solids]
+        lo = max([mats[n]["lo"] for n in sol] + ([130.0] if len(sol) < len(names) else []))
+        hi = min([mats[n]["hi"] for n in sol] + [900.0])
+        if hi - lo > 60.0:
+            break
+    else:
+        names, lo, hi = ["HT9"], 25.0, 600.0
+    dims = {"area": common.dyadic(rng, 1, 9)} if shape == "UnshapedComponent" else gen_dims(rng, shape)
+    nops = rng.randint(5, 12)
+    temps = gen_temps(rng, lo, hi, nops + 3)
+    tin, t0 = temps[0], temps[1]
+    if rng.random() < 0.2:
+        t0 = tin
+    pool = temps[2:]
+    ops, cur, ti = [], 0, 0
+    keys = [k for k in SHAPE_DIMS.get(shape, [])]
+    queries = ["factor", "area", "areacold", "volume", "mass", "dim", "block", "dimTc", "areaTc"]
+    for i in range(nops):
+        r = rng.random()
+        if swaps and len(names) > 1 and r < 0.22:
+            cur = rng.choice([j for j in range(len(names)) if j != cur] or [cur])
+            ops.append(["swap", cur, rng.choice(["name", "object"]), rng.random() < 0.5])
+        elif r < 0.55:
+            ops.append(["temp", pool[ti % len(pool)]])
+            ti += 1
+        elif r < 0.63 and keys:
+            k = rng.choice([x for x in keys if x not in ("mult", "nHoles")] or keys)
+            ops.append(["sethot", k, rng.choice([1.015625, 0.984375, 1.0])])
+        else:
+            q = rng.choice(queries)
+            ops.append(["query", q, rng.choice(keys) if (q in ("dim", "dimTc") and keys) else None,
+                        rng.choice(pool) if q in ("dimTc", "areaTc") else None])
+    if not any(o[0] == "temp" for o in ops):
+        ops.append(["temp", pool[0]])
+    if swaps and not any(o[0] == "swap" for o in ops) and len(names) > 1:
+        ops.insert(rng.randrange(1, len(ops)), ["swap", 1, "name", False])
+        ops.append(["temp", pool[-1]])
+    return dict(shape=shape, mode=mode, materials=names, dims=dims, tin=tin, t0=t0, ops=ops,
+                height=common.dyadic(rng, 1, 30, 1), check_every=rng.random() < 0.6,
+                warm=(mode == "block-warm") or rng.random() < 0.5)
+
+
+def hist_case(spec, mats, fail, count=lambda *_: None):
+    """Run one history on the real objects; evaluate the clauses; return (request line, outputs) for the model."""
+    from armi.materials import material as _material
+    from armi.materials.custom import Custom as _Custom
+    from armi.reactor import blocks, components
+
+    shape, dims, tin, t0 = spec["shape"], spec["dims"], spec["tin"], spec["t0"]
+    names = spec["materials"]
+    in_block = spec["mode"] != "bare"
+    height = float(spec["height"]) if in_block else None
+    keys = list(SHAPE_DIMS.get(shape, []))
+
+    def new_mat(n):
+        return mats[n]["cls"]()
+
+    with common.quiet():
+        comp = build(shape, new_mat(names[0]), tin, t0, dims)
+        blk = cool = None
+        if in_block:
+            blk = blocks.HexBlock("b", height=height)
+            # never touched; large enough for the component whatever its expansion (derived coolant stays positive)
+            op = float(max(16, math.ceil(math.sqrt(4.0 * abs(float(comp.getArea(cold=True))) / 0.8660254) + 2.0)))
+            duct = components.Hexagon("duct", "HT9", 25.0, 25.0, op=op, ip=op - 1.0, mult=1.0)
+            blk.add(comp)
+            blk.add(duct)
+            if spec["mode"] == "block-derived":
+                cool = components.DerivedShape("coolant", "Sodium", 450.0, 450.0)
+                blk.add(cool)
+    nucs = set(comp.getNumberDensities())
+    with common.quiet():
+        for n in names[1:]:
+            nucs |= set(components.Circle("probe", new_mat(n), tin, tin, od=1.0, id=0.0, mult=1.0).getNumberDensities())
+    nucs = sorted(nucs)
+    state = {"mat": 0, "T": t0}
+    log = []          # (op token, output list | "reject" | None=not compared)
+    all_temps = {tin, t0}
+
+    def cur_mat():
+        return comp.material
+
+    def is_fluid():
+        return isinstance(comp.material, (_material.Fluid, _Custom))
+
+    def pct(t, m=None):
+        with common.quiet():
+            return float((m or comp.material).linearExpansionPercent(Tc=t))
+
+    def f_expected():
+        if is_fluid():
+            return 1.0
+        return (100.0 + pct(state["T"])) / (100.0 + pct(tin))
+
+    def ndvec():
+        d = comp.getNumberDensities()
+        return [float(d.get(n, 0.0)) for n in nucs]
+
+    def q(tok, fn, extra=None):
+        """one public read: logged for the model, returned to the caller; a raise is logged as reject"""
+        try:
+            with common.quiet():
+                v = fn()
+            out = [float(x) for x in v] if isinstance(v, (list, tuple)) else [float(v)]
+        except (RuntimeError, ValueError, ZeroDivisionError, AttributeError) as e:
+            # (ArithmeticError = negative area = a geometry this generator should not have produced: the history is dropped)
+            out = "reject"
+            if is_fluid() or mats.get(names[state["mat"]], {}).get("kind") == "solid":
+                # a fluid can be read at any temperature; a library solid with a correlation never refuses inside its range
+                if not (tok in ("qV", "qM") and not in_block):
+                    fail("fluid-dimension-raises" if is_fluid() else "solid-expansion-raises",
+                         "a fluid/custom component can be read at any temperature" if is_fluid()
+                         else "expansion inside the validity range does not raise",
+                         repr(e)[:200], None, dict(extra or {}, call=tok))
+        log.append((tok, out))
+        return None if out == "reject" else (out if len(out) != 1 else out[0])
+
+    def guard(tok, fn, extra=None):
+        """block-level reads: not compared with the model, but they must not raise either"""
+        try:
+            with common.quiet():
+                return fn()
+        except (RuntimeError, ZeroDivisionError, AttributeError) as e:
+            fail("fluid-dimension-raises" if is_fluid() else "solid-expansion-raises",
+                 "a fluid/custom component can be read at any temperature" if is_fluid()
+                 else "expansion inside the validity range does not raise", repr(e)[:200], None, dict(extra or {}, call=tok))
+            return None
+
+    ref = {}          # reference point of the conservation clauses: set after construction / swap / dimension edit
+
+    def take_ref():
+        with common.quiet():
+            try:
+                a = float(comp.getArea())
+            except Exception:
+                a = None
+        ref.clear()
+        ref.update(T=state["T"], nd=ndvec(), area=a, mat=state["mat"])
+        ref["mh"] = mass_density(dict(zip(nucs, ref["nd"]))) * a if a is not None else None
+        ref["steps"] = 0
+
+    def check(step_no, op):
+        """the property's clauses for the CURRENT material, through every read path"""
+        extra = {"step": step_no, "after": op, "material": names[state["mat"]]}
+        f = q("qF", comp.getThermalExpansionFactor, extra)
+        fe = f_expected()
+        if f is not None and relerr(f, fe) > TOL:
+            fail("expansion-factor", "getThermalExpansionFactor == p(T)/p(Tinput) of the CURRENT material (1 for a fluid)",
+                 f, fe, extra)
+        exp_real = set(comp.THERMAL_EXPANSION_DIMS)
+        for k in keys:
+            hot = q(f"qD~{k}", lambda k=k: comp.getDimension(k), extra)
+            cold = q(f"qDc~{k}", lambda k=k: comp.getDimension(k, cold=True), extra)
+            if hot is None or cold is None:
+                continue
+            if is_fluid():
+                if hot != cold:
+                    fail("fluid-dimension-changed", "fluids and custom materials keep their dimensions", hot, cold,
+                         dict(extra, dim=k))
+            else:
+                want = cold * fe if k in exp_real else cold
+                if relerr(hot, want) > TOL:
+                    fail("dimension-cold-times-factor", f"dimension {k} == cold value x factor of the current material",
+                         hot, want, dict(extra, dim=k))
+        area = q("qA", comp.getArea, extra)
+        acold = q("qAc", lambda: comp.getArea(cold=True), extra)
+        if area is not None and acold is not None and relerr(area, fe * fe * acold) > TOL * max(1.0, abs(area)):
+            fail("area-factor-squared", "hot area == factor^2 * cold area (current material)", area, fe * fe * acold, extra)
+        nd = q("qN", ndvec, extra)
+        nd = nd if isinstance(nd, list) else [nd]
+        md = mass_density(dict(zip(nucs, nd)))
+        # conservation since the reference point (construction, last swap, last dimension edit)
+        if area is not None and ref.get("area") is not None and not is_fluid() and ref["mat"] == state["mat"]:
+            if ref["mh"] and relerr(md * area / ref["mh"], 1.0) > TOL:
+                fail("mass-per-height", "mass per unit height (area x density) is conserved by setTemperature", md * area,
+                     ref["mh"], extra)
+            if not isinstance(comp.material, _Custom):
+                scale = ((100.0 + pct(ref["T"])) / (100.0 + pct(state["T"]))) ** 2
+                for n_, v, v0 in zip(nucs, nd, ref["nd"]):
+                    if v0 and relerr(v / v0, scale) > TOL:
+                        fail("number-density-path", "N(T) == N_ref * (p(T_ref)/p(T))^2 whatever the history", v, v0 * scale,
+                             dict(extra, nuclide=n_))
+                        break
+        if in_block:
+            vol = q("qV", comp.getVolume, extra)
+            mass = q("qM", comp.getMass, extra)
+            if vol is not None and area is not None and relerr(vol / height, area) > TOL * max(1.0, abs(area)):
+                fail("volume-follows-area", "getVolume()/height == getArea(): the volume read path sees the current "
+                     "temperature and material", vol / height, area, extra)
+            if mass is not None and area is not None and relerr(mass / height, md * area) > TOL * max(1.0, abs(md * area)):
+                fail("mass-read-paths-agree", "getMass()/height == density x area: every read path gives the same mass per "
+                     "unit height", mass / height, md * area, extra)
+            if mass is not None and not is_fluid() and ref.get("mh") and ref["mat"] == state["mat"] \
+                    and relerr(mass / height / ref["mh"], 1.0) > TOL:
+                fail("mass-per-height", "mass per unit height read through getMass() is conserved by setTemperature",
+                     mass / height, ref["mh"], extra)
+            got = guard("block areas", lambda: (float(blk.getMaxArea()),
+                                                float(cool.getArea()) + float(comp.getArea()) + float(duct.getArea()),
+                                                sum(float(c.getVolume()) for c in blk)), extra) if cool is not None else None
+            if got is not None:
+                amax, tot, vtot = got
+                if relerr(tot, amax) > TOL:
+                    fail("derived-shape-closes-area", "component areas of a block with a derived shape sum to the block's area",
+                         tot, amax, extra)
+                if relerr(vtot, amax * height) > TOL:
+                    fail("derived-shape-closes-area", "component volumes of a block with a derived shape sum to max area x height",
+                         vtot, amax * height, extra)
+
+    def warm():
+        """ordinary bookkeeping reads that fill whatever the code caches"""
+        q("qV", comp.getVolume) if in_block else None
+        q("qM", comp.getMass) if in_block else None
+        if in_block:
+            guard("block reads", lambda: (blk.getVolumeFractions(), blk.getArea(), blk.getNumberDensities()))
+        q("qA", comp.getArea)
+
+    take_ref()
+    nd0 = ndvec()
+    if spec["warm"]:
+        warm()
+    if spec["check_every"]:
+        check(-1, "construction")
+    for i, op in enumerate(spec["ops"]):
+        kind = op[0]
+        if kind == "temp":
+            t = float(op[1])
+            all_temps.add(t)
+            with common.quiet():
+                try:
+                    comp.setTemperature(t)
+                except Exception as e:
+                    fail("set-temperature-raises", "setTemperature itself does not raise", repr(e)[:200], None,
+                         {"step": i, "T": t, "material": names[state["mat"]]})
+                    break
+            state["T"] = t
+            ref["steps"] = ref.get("steps", 0) + 1
+            log.append((f"T~{rat(t)}", None))
+            count("history op: setTemperature")
+        elif kind == "swap":
+            j, how, refill = op[1], op[2], op[3]
+            was_fluid = is_fluid()
+            with common.quiet():
+                comp.setProperties(names[j] if how == "name" else new_mat(names[j]))
+            state["mat"] = j
+            log.append((f"M~{j}", None))
+            if refill:
+                # the usual companion of a material replacement; the model is told the resulting densities
+                with common.quiet():
+                    comp.applyMaterialMassFracsToNumberDensities()
+                log.append((f"N~{ratlist(ndvec())}", None))
+            take_ref()
+            count("history op: swap %s -> %s" % ("fluid" if was_fluid else "solid", "fluid" if is_fluid() else "solid"))
+        elif kind == "sethot":
+            k, factor = op[1], op[2]
+            with common.quiet():
+                try:
+                    v = float(comp.getDimension(k)) * factor
+                    if not v:
+                        # drilling a solid: a quarter of the matching outer dimension
+                        outer = {"id": "od", "ip": "op", "lengthInner": "lengthOuter", "widthInner": "widthOuter"}.get(k)
+                        v = 0.25 * float(comp.getDimension(outer)) if outer else 0.375
+                    comp.setDimension(k, v, cold=False)
+                    ok = True
+                except (RuntimeError, ArithmeticError):
+                    ok = False
+            if ok:
+                log.append((f"H~{k}~{rat(v)}", None))
+                got = q(f"qD~{k}", lambda k=k: comp.getDimension(k))
+                if got is not None and relerr(got, v) > TOL:
+                    fail("hot-dimension-readback", f"setDimension({k}, v, cold=False) reads back v (current material)",
+                         got, v, {"step": i, "dim": k, "material": names[state["mat"]]})
+                take_ref()
+                count("history op: hot setDimension")
+        else:
+            what, k = op[1], op[2]
+            tq = float(op[3]) if len(op) > 3 and op[3] is not None else None
+            if tq is not None:
+                all_temps.add(tq)
+            if what in ("dimTc", "areaTc") and (what == "areaTc" or k):
+                # reads at an explicit temperature: the CURRENT material's curve at Tc, nothing cached
+                fe_tc = 1.0 if is_fluid() else (100.0 + pct(tq)) / (100.0 + pct(tin))
+                if what == "dimTc":
+                    got = q(f"qDT~{k}~{rat(tq)}", lambda: comp.getDimension(k, Tc=tq))
+                    cold_k = float(comp.getDimension(k, cold=True))
+                    want = cold_k * fe_tc if k in comp.THERMAL_EXPANSION_DIMS else cold_k
+                    if got is not None and relerr(got, want) > TOL:
+                        fail("dimension-at-Tc", "getDimension(key, Tc=T) == cold value x factor(T) of the current material", got,
+                             want, {"step": i, "dim": k, "Tc": tq, "material": names[state["mat"]]})
+                else:
+                    got = q(f"qAT~{rat(tq)}", lambda: comp.getArea(Tc=tq))
+                    acold_ = float(comp.getArea(cold=True))
+                    if got is not None and relerr(got, fe_tc * fe_tc * acold_) > TOL * max(1.0, abs(got)):
+                        fail("area-factor-squared", "getArea(Tc=T) == factor(T)^2 * cold area (current material)", got,
+                             fe_tc * fe_tc * acold_, {"step": i, "Tc": tq, "material": names[state["mat"]]})
+            elif what == "factor":
+                q("qF", comp.getThermalExpansionFactor)
+            elif what == "area":
+                q("qA", comp.getArea)
+            elif what == "areacold":
+                q("qAc", lambda: comp.getArea(cold=True))
+            elif what == "volume" and in_block:
+                q("qV", comp.getVolume)
+            elif what == "mass" and in_block:
+                q("qM", comp.getMass)
+            elif what == "dim" and k:
+                q(f"qD~{k}", lambda k=k: comp.getDimension(k))
+            elif what == "block" and in_block:
+                guard("block reads", lambda: (blk.getVolumeFractions(), blk.getMass()))
+                q("qV", comp.getVolume)
+            count("history op: query")
+        if spec["check_every"]:
+            check(i, op)
+    check(len(spec["ops"]), "end")
+    # path independence: a twin built directly with the final material at the final temperature from the same
+    # cold dimensions reads the same factor, dimensions and area
+    try:
+        with common.quiet():
+            cold_now = {k: float(comp.getDimension(k, cold=True)) for k in keys} if keys else dict(dims)
+            twin = build(shape, new_mat(names[state["mat"]]), tin, state["T"], cold_now)
+            pairs = [("factor", float(twin.getThermalExpansionFactor()), float(comp.getThermalExpansionFactor())),
+                     ("area", float(twin.getArea()), float(comp.getArea()))]
+            pairs += [(k, float(twin.getDimension(k)), float(comp.getDimension(k))) for k in keys]
+        for k, a, b in pairs:
+            if relerr(a, b) > TOL:
+                fail("path-independence", "end state depends only on the final temperature and the current material",
+                     b, a, {"what": k, "material": names[state["mat"]]})
+    except (RuntimeError, ArithmeticError):
+        pass
+    return dict(log=log, nucs=nucs, temps=sorted(all_temps), nd0=nd0)
+
+
+def hist_request(spec, mats, res):
+    """the `hist` request of Drivers/Thermal.lean for one logged history"""
+    from armi.materials import material as _material
+    from armi.materials.custom import Custom as _Custom
+
+    shape, dims = spec["shape"], spec["dims"]
+    mtoks = []
+    for n in spec["materials"]:
+        m = mats[n]["cls"]()
+        liquid = isinstance(m, _material.Fluid)
+        k = "L" if liquid else ("C" if isinstance(m, _Custom) else "S")
+        rows = []
+        for t in res["temps"]:
+            with common.quiet():
+                p = float(m.linearExpansionPercent(Tc=t))
+                try:
+                    rho = float(m.pseudoDensity(Tc=t)) if liquid else 0.0
+                except Exception:
+                    rho = 0.0
+            rows.append(f"{rat(t)}~{rat(p)}~{rat(rho)}")
+        mtoks.append(";".join([k] + rows))
+    if shape == "UnshapedComponent":
+        sh, cold = "U", f"area={rat(dims['area'])}"
+    else:
+        sh, cold = shape, ",".join(f"{k}={rat(dims[k])}" for k in SHAPE_DIMS[shape])
+    h = rat(spec["height"]) if spec["mode"] != "bare" else "_"
+    ops = "[" + ",".join(tok for tok, _ in res["log"]) + "]"
+    return (f"hist {sh} {cold} {h} 1 {rat(spec['tin'])} {rat(spec['t0'])} {ratlist(res['nd0'])} "
+            f"{ratlist(_mass_weights(res['nucs']))} [{','.join(mtoks)}] {ops}")
+
+
+def run_histories(ctx, mats, solids):
+    """generator: (a) a structured sweep - every shape class (11 + unshaped) x {bare, block, block with warmed caches,
+    block with a derived coolant} without swaps; (b) seeded histories with material swaps within and across the
+    expansion classes."""
+    shapes = list(SHAPE_DIMS) + ["UnshapedComponent"]
+    plan = []
+    for shape in shapes:
+        for mode in HIST_MODES:
+            plan.append((shape, mode, False))
+    for shape in shapes:
+        plan.append((shape, None, True))
+    for _ in range(ctx.pick(150, 1500)):
+        plan.append((None, None, None))
+    req, chk = [], []
+    for shape, mode, swaps in plan:
+        seed = ctx.rng.getrandbits(40)
+        case = {"hist": True, "seed": seed, "shape": shape, "mode": mode, "swaps": swaps}
+        spec = hist_spec(seed, mats, solids, shape, mode, swaps)
+        fails = []
+        try:
+            res = hist_case(spec, mats, lambda *a: fails.append(a), ctx.count)
+        except (ArithmeticError, ValueError):
+            ctx.count("history refused (negative area)")
+            continue
+        except RuntimeError as e:
+            ctx.fail("solid-expansion-raises", "a history of public calls inside the validity ranges does not raise", case,
+                     observed=repr(e)[:300])
+            continue
+        rows = [(hist_request(spec, mats, res), res["log"])]
+        for key, clause, obs, exp, extra in fails:
+            ctx.fail(key, clause, dict(case, **(extra or {})), observed=obs, expected=exp)
+        ctx.case(("hist", seed), nontrivial=True,
+                 sample={"history": case, "spec": spec} if len(req) == 0 else None)
+        ctx.count(f"history shape {spec['shape']}")
+        ctx.count(f"history mode {spec['mode']}")
+        for line, outs in rows:
+            req.append(line)
+            chk.append((case, outs))
+    model = lean_run("Thermal", req)
+    for line, (case, outs) in zip(model, chk):
+        hist_compare(ctx, case, line, outs)
+    ctx.evaluations += sum(len(o) for _, o in chk)
+    ctx.count("model requests (histories)", len(req))
+    ctx.count("history calls compared with the model", sum(len(o) for _, o in chk))
+
+
+def hist_compare(ctx, case, line, outs, what="Thermal.run (component state machine with caches) vs the real call history"):
+    try:
+        got = common.parse_list(line)
+    except Exception:
+        ctx.disagree(what, case, line, [o for _, o in outs][:6])
+        return
+    if not isinstance(got, list) or len(got) != len(outs):
+        ctx.disagree(what, case, line[:200], [o for _, o in outs][:6])
+        return
+    for idx, (g, (tok, o)) in enumerate(zip(got, outs)):
+        if o is None:
+            continue
+        if o == "reject" or g == "reject":
+            if o != g:
+                ctx.disagree(what, dict(case, call=tok, index=idx), g if g == "reject" else "value", o if o == "reject" else "value")
+                return
+            continue
+        qs = [common.unrat(x) for x in g]
+        if len(qs) != len(o) or any(not common.close(v, q_, TOL) and (not q_ or relerr(v / float(q_), 1.0) > TOL)
+                                    for v, q_ in zip(o, qs)):
+            ctx.disagree(what, dict(case, call=tok, index=idx), [float(x) for x in qs][:4], o[:4])
+            return
+
+
+# --------------------------------------------------------------------------- linked dimensions x warmed volume caches
+STALE_KEY = "volume-stale-behind-link-to-link"
+
+
+def link_cache_case(seed, mats, solids, fail, count=lambda *_: None):
+    """A pin block whose fluid annuli are bounded through dimension links (bond: id -> fuel.od, od -> liner.id; gap:
+    id -> liner.od, od -> clad.id), optionally with gas-bonded pins whose dimensions are links to the bond's LINKED
+    dimensions (a link to a link), a duct and a derived coolant.  Volume caches are warmed, then the solids are heated
+    / hot-set / replaced one at a time; after every call, for EVERY component: getVolume()/height == getArea() and
+    getMass()/height == density x area, and the component areas / volumes close the block.  Every call that can touch
+    a cache is logged in order; returns the `bhist` request for Model/Thermal.lean `brun` and the logged outputs."""
+    import random
+
+    from armi.materials import material as _material
+    from armi.materials.custom import Custom as _Custom
+    from armi.reactor import blocks, components
+    from armi.reactor.components.component import _DimensionLink
+
+    rng = random.Random(seed)
+    a, b, c3 = (rng.choice(solids) for _ in range(3))
+
+    def mat(n):
+        return mats[n]["cls"]()
+
+    def temps(n, k):
+        return gen_temps(rng, mats[n]["lo"], mats[n]["hi"], k)
+
+    ta, tb, tc = temps(a, 6), temps(b, 6), temps(c3, 6)
+    two_hop = rng.random() < 0.5
+    h = common.dyadic(rng, 5, 40, 1)
+    with common.quiet():
+        blk = blocks.HexBlock("b", height=h)
+        fuel = components.Circle("fuel", mat(a), ta[0], ta[1], od=common.dyadic(rng, 0.5, 0.75, 4), id=0.0, mult=7.0)
+        liner = components.Circle("liner", mat(b), tb[0], tb[1], od=1.125, id=1.0, mult=7.0)
+        clad = components.Circle("clad", mat(c3), tc[0], tc[1], od=1.5, id=1.25, mult=7.0)
+        bond = components.Circle("bond", "Sodium", 450.0, 450.0, od="liner.id", id="fuel.od", mult=5.0 if two_hop else 7.0,
+                                 components={"fuel": fuel, "liner": liner})
+        gap = components.Circle("gap", "Sodium", 450.0, 450.0, od="clad.id", id="liner.od", mult="clad.mult",
+                                components={"liner": liner, "clad": clad})
+        comps = [fuel, bond, liner, gap, clad]
+        if two_hop:
+            # two of the seven pins are gas bonded: same annulus as the sodium bond, i.e. links to the bond's links
+            gas = components.Circle("gasbond", "Air", 450.0, 450.0, od="bond.od", id="bond.id", mult=2.0,
+                                    components={"bond": bond})
+            comps.append(gas)
+        duct = components.Hexagon("duct", "HT9", 25.0, 25.0, op=16.0, ip=15.0, mult=1.0)
+        cool = components.DerivedShape("coolant", "Sodium", 450.0, 450.0)
+        comps.append(duct)
+        for c in comps + [cool]:
+            blk.add(c)
+        amax0 = float(blk.getMaxArea())
+    # which components hold a link to a dimension that is itself a link (outside FlatLinks: where the sweep of the direct
+    # dependents - the code before fix b30c1b1 - left a stale volume; judged under its own key, which must never fire now)
+    behind_chain = set()
+    for c in comps:
+        for k in c.DIMENSION_NAMES:
+            v = c.p[k]
+            if isinstance(v, _DimensionLink) and isinstance(v[0].p[v[1]], _DimensionLink):
+                behind_chain.add(c.name)
+    count("link-cache block: links one level deep (FlatLinks holds)" if not behind_chain
+          else "link-cache block: a link to a linked dimension (outside FlatLinks)")
+    index = {id(c): i for i, c in enumerate(comps)}
+    mat_names = []
+
+    def mat_index(c):
+        n = type(c.material).__name__
+        if n not in mat_names:
+            mat_names.append(n)
+        return mat_names.index(n)
+
+    all_temps = set()
+    # the block as the model receives it (before any cache is filled)
+    ctoks = []
+    for c in comps:
+        nd = c.getNumberDensities()
+        nucs = sorted(nd)
+        ds = []
+        for k in c.DIMENSION_NAMES:
+            v = c.p[k]
+            if v is None:
+                continue
+            ds.append(f"{k}=@{index[id(v[0])]}.{v[1]}" if isinstance(v, _DimensionLink) else f"{k}={rat(float(v))}")
+        all_temps |= {float(c.inputTemperatureInC), float(c.temperatureInC)}
+        ctoks.append(";".join([type(c).__name__, str(mat_index(c)), rat(float(c.inputTemperatureInC)),
+                               rat(float(c.temperatureInC)), ratlist([nd[n] for n in nucs]), ratlist(_mass_weights(nucs)),
+                               ",".join(ds)]))
+    log = []
+
+    def call(tok, fn, compare=True):
+        try:
+            v = float(fn())
+            out = [v]
+        except (RuntimeError, ValueError) as e:
+            v, out = None, "reject"
+        log.append((tok, out if compare else None))
+        return v
+
+    def A(c):
+        return call("qDA" if c is cool else f"qA~{index[id(c)]}", c.getArea)
+
+    def V(c):
+        return call("qDV" if c is cool else f"qV~{index[id(c)]}", c.getVolume)
+
+    def M(c):
+        return call("qDV" if c is cool else f"qM~{index[id(c)]}", c.getMass, compare=c is not cool)
+
+    def warm():
+        with common.quiet():
+            for c in blk:
+                V(c)
+            blk.getVolumeFractions()
+            blk.getMass()
+        for _ in range(2):           # getVolumeFractions / getMass: every child's getVolume(), in order
+            for c in comps:
+                log.append((f"qV~{index[id(c)]}", None))
+            log.append(("qDV", None))
+
+    def check(tag):
+        with common.quiet():
+            stale = False
+            for c in blk:
+                area, vol, mass = A(c), V(c), M(c)
+                if None in (area, vol, mass):
+                    fail("solid-expansion-raises", "expansion inside the validity range does not raise", None, None,
+                         {"after": tag, "comp": c.name})
+                    continue
+                md = mass_density(dict(c.getNumberDensities()))
+                extra = {"after": tag, "comp": c.name, "two_hop": two_hop}
+                bad_v = relerr(vol / h, area) > TOL * max(1.0, abs(area))
+                bad_m = relerr(mass / h, md * area) > TOL * max(1.0, abs(md * area))
+                if c.name in behind_chain and (bad_v or bad_m):
+                    stale = True
+                    fail(STALE_KEY, "getVolume()/height == getArea() for a component whose dimension is a link to another "
+                         "component's LINKED dimension, after the end of the chain expanded", vol / h, area, extra)
+                    continue
+                if c is cool and stale:
+                    continue        # derived from the stale sibling volume: same finding, judged below
+                if bad_v:
+                    fail("volume-follows-area", "getVolume()/height == getArea(): the volume read path sees the current "
+                         "temperatures of the components it is linked to", vol / h, area, extra)
+                if bad_m:
+                    fail("mass-read-paths-agree", "getMass()/height == density x area", mass / h, md * area, extra)
+            amax = float(blk.getMaxArea())
+            tot = sum(A(c) or 0.0 for c in blk)
+            vtot = sum(V(c) or 0.0 for c in blk)
+        if amax != amax0:
+            fail("derived-shape-closes-area", "the block's max area does not change when its duct is untouched", amax, amax0,
+                 {"after": tag})
+        for what, got, want in (("areas", tot, amax), ("volumes", vtot, amax * h)):
+            if relerr(got / want, 1.0) > TOL:
+                fail(STALE_KEY if stale else "derived-shape-closes-area",
+                     f"component {what} of a block with a derived shape sum to the block's", got, want,
+                     {"after": tag, "two_hop": two_hop})
+        count("link-cache check: a dependent behind a link-to-link was stale" if stale else "link-cache check: all volumes current")
+
+    warm()
+    check("built")
+    script = [rng.choice(["fuel", "liner", "clad", "hotset", "swap", "hotset-through-link"]) for _ in range(rng.randint(3, 6))]
+    idx = {"fuel": 2, "liner": 2, "clad": 2}
+    for i, what in enumerate(script):
+        if rng.random() < 0.7:
+            warm()
+        with common.quiet():
+            if what in ("fuel", "liner", "clad"):
+                c, tt = {"fuel": (fuel, ta), "liner": (liner, tb), "clad": (clad, tc)}[what]
+                t = tt[idx[what]]
+                idx[what] = min(idx[what] + 1, 5)
+                c.setTemperature(t)
+                all_temps.add(float(t))
+                log.append((f"T~{index[id(c)]}~{rat(t)}", None))
+            elif what == "hotset":
+                v = float(fuel.getDimension("od")) * rng.choice([1.015625, 0.984375])
+                fuel.setDimension("od", v, cold=False)
+                log.append((f"H~0~od~{rat(v)}", None))
+            elif what == "hotset-through-link":
+                # retainLink=True on a linked dimension: the value lands on the link target (bond.id -> fuel.od,
+                # gap.od -> clad.id), whose dependents (and theirs) must all be recomputed
+                holder, key = rng.choice([(bond, "id"), (gap, "od"), (gap, "id")])
+                v = float(holder.getDimension(key)) * rng.choice([1.0078125, 0.9921875])
+                holder.setDimension(key, v, retainLink=True, cold=False)
+                log.append((f"HR~{index[id(holder)]}~{key}~{rat(v)}", None))
+                got = float(holder.getDimension(key))
+                if relerr(got, v) > TOL:
+                    fail("set-dimension-readback", "a hot set through a retained link reads back", got, v,
+                         {"after": f"{i}:{what}", "comp": holder.name, "dim": key})
+            else:
+                # the fuel is replaced by another solid with the same cold dimensions
+                n2 = rng.choice(solids)
+                t_now = float(fuel.temperatureInC)
+                if mats[n2]["lo"] <= min(t_now, ta[0]) and max(t_now, ta[0]) <= mats[n2]["hi"]:
+                    fuel.setProperties(mat(n2))
+                    log.append((f"M~0~{mat_index(fuel)}", None))
+        check(f"{i}:{what}")
+    # materials as the model sees them
+    temps_sorted = sorted(all_temps)
+    mtoks = []
+    for n in mat_names:
+        m = mats[n]["cls"]()
+        liquid = isinstance(m, _material.Fluid)
+        k = "L" if liquid else ("C" if isinstance(m, _Custom) else "S")
+        rows = []
+        for t in temps_sorted:
+            with common.quiet():
+                try:
+                    p_ = float(m.linearExpansionPercent(Tc=t))
+                except Exception:
+                    p_ = 0.0
+                try:
+                    rho = float(m.pseudoDensity(Tc=t)) if liquid else 0.0
+                except Exception:
+                    rho = 0.0
+            rows.append(f"{rat(t)}~{rat(p_)}~{rat(rho)}")
+        mtoks.append(";".join([k] + rows))
+    # which clearLinkedCache the model transcribes: the transitive sweep of the code since fix b30c1b1 (the defect is
+    # recorded as `fixed:` in findings.d/C03.txt); the direct-dependents sweep only if the key is listed as a finding again
+    coded = any(f.get("property") == "C03" and f.get("key") == STALE_KEY for f in common.load_findings()["finding"])
+    req = (f"bhist {'F' if coded else 'T'} {rat(h)} {rat(amax0)} [{','.join(mtoks)}] {'|'.join(ctoks)} "
+           f"[{','.join(tok for tok, _ in log)}]")
+    return req, log
+
+
+def run_link_caches(ctx, mats, solids):
+    n = ctx.pick(40, 400)
+    req, chk = [], []
+    for rep in range(n):
+        seed = ctx.rng.getrandbits(40)
+        case = {"linkcache": True, "seed": seed}
+        fails = []
+        try:
+            line, log = link_cache_case(seed, mats, solids, lambda *a: fails.append(a), ctx.count)
+        except (ArithmeticError, ValueError) as e:
+            ctx.count(f"link-cache block refused ({type(e).__name__})")
+            continue
+        req.append(line)
+        chk.append((case, log))
+        seen = set()
+        for key, clause, obs, exp, extra in fails:
+            if key == STALE_KEY and key in seen:
+                continue
+            seen.add(key)
+            ctx.fail(key, clause, dict(case, **extra), observed=obs, expected=exp)
+        ctx.case(("linkcache", seed), nontrivial=True)
+    model = lean_run("Thermal", req)
+    for line, (case, log) in zip(model, chk):
+        hist_compare(ctx, case, line, log, what="Thermal.brun (block of linked components with caches, clearLinkedCache as "
+                                                "coded) vs the real call history")
+    ctx.evaluations += sum(len(l) for _, l in chk)
+    ctx.count("link-cache cases", n)
+    ctx.count("link-cache calls compared with the model", sum(1 for _, l in chk for _, o in l if o is not None))
+
+
 # --------------------------------------------------------------------------- entry points
 def _hush():
     # the documented RuntimeError of solids without a correlation is logged at error level on every call
@@ -1265,13 +1988,21 @@ def run(ctx):
     run_derived(ctx, mats, solids)
     run_chains(ctx, mats, solids)
     run_aliasing(ctx, mats, solids)
+    run_histories(ctx, mats, solids)
+    run_link_caches(ctx, mats, solids)
     ctx.rule = ("full cross product: every 2-D shape class (11 + unshaped) x every solid material class with an expansion "
                 "correlation x seeded histories (1-8 temperatures inside the validity range, incl. start at the input "
                 "temperature and revisits); every solid class without a correlation and every fluid/Custom class x shapes; "
                 "seeded linked-dimension configurations (pin, duct, link-to-link, liner; also read at a given Tc); chained links A->B->C and 3-hop chains whose middle is replaced by a value, "
                 "hot-set and re-linked between temperature changes, judged against the declared targets; components given the "
                 "SAME number-density dict object / the same material object, then heated or scaled one at a time; hex blocks with a "
-                "derived (left-over) coolant between expanding solids. distinct = (shape, material, history "
+                "derived (left-over) coolant between expanding solids; histories of public calls on one component (every shape "
+                "class incl. the area-defined UnshapedComponent x {bare, in a block, block with warmed caches, block with a "
+                "derived coolant}; seeded mixes of queries, setTemperature, setProperties material swaps within and across "
+                "solid/Fluid/Custom, hot setDimension) replayed on the model's state machine with caches and judged through "
+                "the area, getVolume()/height and getMass()/height read paths; pin blocks with link-bounded annuli (and "
+                "gas-bonded pins behind a link to a link), warmed volume caches, solids heated / hot-set / replaced one at a "
+                "time, every component judged through getVolume and getMass. distinct = (shape, material, history "
                 "index) / (config, seed); all non-trivial (real setTemperature/getDimension/getArea calls compared with the "
                 "model and judged by the oracle).")
 
@@ -1356,6 +2087,18 @@ def search(ctx, disagreements, broken):
                 continue
             for key, clause, obs, exp, extra in fails:
                 out.append(Failure(key, clause, dict(derived=True, seed=c["seed"], **extra), observed=obs, expected=exp))
+    for d in disagreements:
+        c = d.case if isinstance(d.case, dict) else {}
+        if c.get("hist"):
+            fails = []
+            try:
+                hist_case(hist_spec(c["seed"], mats, solids, c.get("shape"), c.get("mode"), c.get("swaps")), mats,
+                          lambda *a: fails.append(a))
+            except Exception:
+                continue
+            for key, clause, obs, exp, extra in fails:
+                out.append(Failure(key, clause, dict(hist=True, seed=c["seed"], shape=c.get("shape"), mode=c.get("mode"),
+                                                     swaps=c.get("swaps"), **(extra or {})), observed=obs, expected=exp))
     # links
     for d in disagreements:
         c = d.case if isinstance(d.case, dict) else {}
@@ -1372,6 +2115,21 @@ def search(ctx, disagreements, broken):
 
 def replay(ctx, payload):
     case, key = payload["case"], payload["key"]
+    if case.get("hist"):
+        mats = classify_materials(ctx)
+        solids = [n for n, i in mats.items() if i["kind"] == "solid" and i.get("has_nd")]
+        fails = []
+        hist_case(hist_spec(case["seed"], mats, solids, case.get("shape"), case.get("mode"), case.get("swaps")), mats,
+                  lambda *a: fails.append(a))
+        hit = [f for f in fails if f[0] == key]
+        return {"observed": hit[0][2], "expected": hit[0][3]} if hit else None
+    if case.get("linkcache"):
+        mats = classify_materials(ctx)
+        solids = [n for n, i in mats.items() if i["kind"] == "solid" and i.get("has_nd")]
+        fails = []
+        link_cache_case(case["seed"], mats, solids, lambda *a: fails.append(a))
+        hit = [f for f in fails if f[0] == key]
+        return {"observed": hit[0][2], "expected": hit[0][3]} if hit else None
     if case.get("alias"):
         mats = classify_materials(ctx)
         solids = [n for n, i in mats.items() if i["kind"] == "solid" and i.get("has_nd")]
